@@ -379,7 +379,7 @@ def generate(repo=None):
     return "\n".join(out)
 
 
-def write(repo=None, dest="/verif/coq/gen/G18_fp2.v"):
+def write(repo=None, dest=os.path.join(os.path.dirname(os.path.dirname(os.path.dirname(os.path.abspath(__file__)))), "coq", "gen", "G18_fp2.v")):
     text = generate(repo)
     old = open(dest).read() if os.path.exists(dest) else None
     if old != text:
